@@ -377,6 +377,11 @@ func (m *{{ .Name }}) Delete(k {{ .KeyType }}) {
 }
 
 func (m *{{ .Name }}) delete(k {{ .KeyType }}) {
+	if !m.has(k) {
+		// Nothing to delete: the order must stay untouched.
+		return
+	}
+
 var kk {{ .KeyType }}
 	i := -1
 
@@ -397,7 +402,10 @@ func (m *{{ .Name }}) Filter(fn filter{{ .CapitalizedName }}Func) {
 	m.mx.Lock()
 	defer m.mx.Unlock()
 
-	for _, k := range m.order {
+	// Iterate over a copy: delete shifts the order slice in place.
+	order := make([]{{ .KeyType }}, len(m.order))
+	copy(order, m.order)
+	for _, k := range order {
 		if !fn(k, m.data[k]) {
 			m.delete(k)
 		}
